@@ -12,9 +12,9 @@ From PyOrb.spec Require Import Spec_Sun.
 From PyOrb.gen Require Import Gen_astronomy.
 Open Scope R_scope.
 
-Definition century (d : R) : Prop := -1 / 2 <= d / 36525 <= 1 / 2.
+Definition century (d : R) : Prop := -1 / 2 <= d / 36525 <= 51 / 100.
 
-Lemma century_days d : century d -> -18262.5 <= d <= 18262.5.
+Lemma century_days d : century d -> -18262.5 <= d <= 18627.75.
 Proof. unfold century. lra. Qed.
 
 (* ------------------------------------------------------------------------- *)
@@ -214,12 +214,27 @@ Proof.
   match goal with |- _ <= sin ?a * sin ?b + cos ?a * cos ?b * cos ?h <= _ => apply (dot_range a b h) end.
 Qed.
 
+(* the code clips the cosine to [-1, 1] before arccos / arcsin (np.clip, traced as two
+   np.where's = ite_lt); over the reals the clip is the identity because of coszen_range.
+   [rewrite ?] keeps the proofs valid for a code version without the clip. *)
 Lemma zenith_is_acos d lon lat :
   gen_sun_zenith_angle d lon lat = rad2deg (acos (gen_cos_zen d lon lat)).
-Proof. unfold gen_sun_zenith_angle, gen_cos_zen; cbv zeta. reflexivity. Qed.
+Proof.
+  pose proof (coszen_range d lon lat) as [H1 H2].
+  set (c := gen_cos_zen d lon lat) in *.
+  unfold gen_sun_zenith_angle; cbv zeta; fold c.
+  rewrite ?(ite_lt_false 1 c) by lra. rewrite ?(ite_lt_false c (-1)) by lra.
+  reflexivity.
+Qed.
 
 Lemma alt_is_asin d lon lat : gen_sun_alt d lon lat = asin (gen_cos_zen d lon lat).
-Proof. unfold gen_sun_alt, gen_cos_zen; cbv zeta. reflexivity. Qed.
+Proof.
+  pose proof (coszen_range d lon lat) as [H1 H2].
+  set (c := gen_cos_zen d lon lat) in *.
+  unfold gen_sun_alt; cbv zeta; fold c.
+  rewrite ?(ite_lt_false 1 c) by lra. rewrite ?(ite_lt_false c (-1)) by lra.
+  reflexivity.
+Qed.
 
 Lemma zenith_alt d lon lat :
   deg2rad (gen_sun_zenith_angle d lon lat) = PI / 2 - gen_sun_alt d lon lat.
